@@ -12,7 +12,10 @@ RULE = ("2-5 logical threads with programs over Add(n)/Done/Wait/Num/IsDone (sev
         "the enabled sets must agree. Non-trivial: at least one Wait parked and was later woken or cancelled; distinct = "
         "distinct case lines.")
 TRUSTED = ["sync.Mutex / sync.Cond / context modelled (FIFO wake-up order of sync.Cond as implemented by the Go runtime)",
-           "the verif hooks in sync.go mark the segment boundaries (MANIFEST.hooks)"]
+           "the verif hooks in sync.go mark the segment boundaries (MANIFEST.hooks)",
+           "T-gen (FunGen/SegsWaitGroup.lean, rewritten from $VERIF_REPO/sync.go on every run; FunProps/C14Gen.lean proves the "
+           "model's start/resume equal to it): the shape recogniser tools/go2lean/segs.go and its tables (field counter, "
+           "method -> Op constructor, result -> observation string; wg.init() and the hooks skipped; int = Int)"]
 ASSUMPTIONS = ["segments are atomic (they run under wg.mu)"]
 HARNESS_ENV = {}
 
